@@ -6,6 +6,7 @@ NOT_APPLICABLE = {
     "C15": "up to 1000 iterations of 113-bit multiply/divide on heap big integers (dashu); non-linear queries do not terminate and dashu is not executable under Kani (measured: 489 ERROR checks)",
     "C16": "same kernel as C15 (bounded Taylor loop over dashu big integers); the oracle would be a re-implementation and the non-linear queries do not terminate",
     "C20": "quantifies over schedules of concurrent tokio tasks over sockets; Kani does not model concurrency and tokio channels gave no verdict in 400 s for a single try_send/try_recv",
+    "C21": "the reassembly step (try_decode_message / try_decode_msg) was harnessed under Kani in two ways (encoder-built pairs with a symbolic cut; hand-laid two-message keep-alive stream with every cut position concrete, cookies symbolic: kani/k_net*/src/c21*.rs) and neither reached a verdict within 400 s per harness (minicbor decoding out of a heap Vec plus drain); under mirsym the decoder is the callee and would be uninterpreted, which removes exactly what the property is about. Nothing is claimed",
     "C25": "the version-selection loop lives inside an async fn between channel awaits (v1) or iterates two HashMap version tables pushed to FuturesUnordered (v2); HashMap is not executable under Kani and call abstraction would havoc exactly the iteration that carries the property",
     "C28": "histories over InitiatorBehavior: HashMap<PeerId,_>, FuturesUnordered<Pin<Box<dyn Future>>>, chrono, rand, opentelemetry globals; not encodable, and a per-visitor abstraction drops the delayed-confirmation interleavings the property is about",
     "C29": "same state as C28 (HashMap + FuturesUnordered behaviours); event histories cannot be encoded",
